@@ -137,7 +137,10 @@ def correspondence(ctx, broken_obligations=()):
     #  entity:between_lookup_and_insert); a request that blocks before its yield point is simply not parked
     two = ["two:%s:%d:%d:%s;%s" % (st, a, b, o, k) for st in ("fresh", "changed") for a in range(4) for b in range(4)
            for o in ("ab", "ba") for k in KINDS]
-    cases = cases + two * (1 if ctx.quick else 3)
+    # the same with the change notification (installing version 2) as the second thread, parked inside its critical
+    # section or not at all: the request may be answered from version 1 or 2, and everything must return
+    twoc = ["two:changed:%d:%d:%s:c;%s" % (a, b, o, k) for a in range(4) for b in (4, 3) for o in ("ab", "ba") for k in KINDS]
+    cases = cases + (two + twoc) * (1 if ctx.quick else 3)
 
     def model_case(c):
         sc = c.split(";")[0]
@@ -148,7 +151,9 @@ def correspondence(ctx, broken_obligations=()):
     preds = core.run_lines(mb, "sched", [model_case(c) for c in cases], shards=1)
     for c, o, p in zip(cases, outs, preds):
         bad = None
-        if o.startswith(("PANIC", "CRASH", "SETUP-BAD", "NOHOOKS", "BAD")):
+        if o.startswith("HANG"):
+            bad = "forced schedule %s: a request or the change notification never returned (%s)" % (c, o)
+        elif o.startswith(("PANIC", "CRASH", "SETUP-BAD", "NOHOOKS", "BAD")):
             bad = "forced-schedule engine: " + o
         else:
             fields = dict(f.split("=") for f in o.split())
@@ -162,6 +167,9 @@ def correspondence(ctx, broken_obligations=()):
                 # the model lists every read; in change_window only the second thread is a request
                 if c.startswith("change_window"):
                     model_versions, acceptable = model_versions[-1:], acceptable[-1:]
+                if c.split(";")[0].endswith(":c"):
+                    # the request overlaps the change: before or after (Sched.v: C03_linearizable), nothing else
+                    acceptable, model_versions = [["1", "2"]], got_versions
                 for (v, same), acc in zip(got, acceptable):
                     if v not in acc:
                         bad = "a request overlapping %s was answered from version %s; acceptable: %s" % (c.split(";")[0], v, "/".join(acc))
